@@ -626,12 +626,19 @@ class GroupCoordinator(BaseCoordinator):
                 if self._closing.done():
                     break
                 subscription = self._subscription.subscription
-            assert subscription is not None and subscription.active
+            if subscription is None or not subscription.active:
+                # The user can unsubscribe again (or change the subscription
+                # once more) before this task gets to run
+                continue
             auto_assigned = self._subscription.partitions_auto_assigned()
 
             # Ensure active group
             try:
                 await self.ensure_coordinator_known()
+                if not subscription.active:
+                    # Subscription changed while we were looking for the
+                    # coordinator, start over with the new one
+                    continue
                 if auto_assigned and self.need_rejoin(subscription):
                     new_assignment = await self.ensure_active_group(
                         subscription, assignment
